@@ -148,6 +148,7 @@ class Sim:
         from lsst.daf.relation import iteration, sql
         import sqlalchemy
 
+        _marker_class()          # (class creation runs library code: keep it out of the traced threads)
         self.shared_payload = iteration.RowSequence([])
         self.sql_engine = sql.Engine(name="s0")
         self.sql_payload = sql.Payload(sqlalchemy.table("t"))
